@@ -41,14 +41,16 @@ def _cases(ctx):
         scope = ctx.rng.sample(scope, keep)
     for db, roots in scope:
         yield db, roots, "v2c", "noauth", "small-scope"
-    protos = [("v2c", "noauth"), ("v3", "noauth"), ("v3", "auth"), ("v3", "authpriv"), ("v3", "auth-sha1")]
+    protos = [("v2c", "noauth"), ("v3", "noauth"), ("v3", "auth"), ("v3", "authpriv"), ("v3", "auth-sha1"), ("v3", "authpriv-pad")]
     for i in range(ctx.budget(600, 20000)):
         db, roots = W.random_case(ctx.rng, max_inst=ctx.budget(60, 200), max_roots=ctx.budget(5, 6))
         v, lvl = protos[i % len(protos)] if i % 3 == 0 else protos[0]
         yield db, roots, v, lvl, "random"
     # big tables: the walk's bookkeeping (`yielded`, the unfinished set) after thousands of rounds
-    for cols, rows in [(2, 5100 + ctx.rng.randrange(200))] + ([] if ctx.quick else [(3, 7000 + ctx.rng.randrange(500)), (2, 16500)]):
-        db, roots = W.large_case(cols, rows)
+    # (uneven columns: a later column ends while an earlier one is still far from its end)
+    r = ctx.rng.randrange
+    for shape in [[5100 + r(200)] * 2, [1500 + r(100), 600 + r(100)], [300 + r(50), 1300 + r(50), 400 + r(50)]] + ([] if ctx.quick else [[7000 + r(500)] * 3, [16500] * 2, [12000, 3000]]):
+        db, roots = W.large_case(len(shape), shape)
         yield db, roots, "v2c", "noauth", "large"
 
 
@@ -72,7 +74,7 @@ def run(ctx):
         case = {"db": db, "roots": roots, "version": version, "level": level, "api": spec.get("api", "multiwalk")}
         shown = walk
         if origin == "large":
-            case = {"large": [len(roots), len(db) // len(roots)], "roots": roots, "version": version, "level": level, "api": "multiwalk"}
+            case = {"large": [len(roots), [sum(1 for o, _ in db if o[:-1] == rt) for rt in roots]], "roots": roots, "version": version, "level": level, "api": "multiwalk"}
             shown = W.summary(walk)
         if bad and walk["outcome"] == ["error", ["authError"]] and agent.raw_log and auth_len127(agent.raw_log[-1][1]):
             # authentic response rejected: recorded finding of C10 (127-octet level), same input signature
@@ -100,7 +102,7 @@ def run(ctx):
                     )
                     break
         perm_checked += 1
-        if origin == "large" and (ctx.quick or len(db) > 12000):
+        if origin == "large" and len(db) > (3000 if ctx.quick else 12000):
             res.evaluations += 1  # oracle only: the list-based model needs ~15 s per 10^4 instances
             res.count("large:oracle-only")
             continue
